@@ -259,6 +259,8 @@ def broadcast_desc(r, model: str, i: int, tag: str) -> Dict[str, Any]:
                 name += c
             elif len(name.encode()) < 32:
                 name += "x"
+    if r.random() < 0.04 and len(name.encode()) >= 3:
+        name = r.choice([" " + name[1:], name[:-1] + " ", " " + name[1:-1] + " ", "\u00a0" + name[2:] if len((("\u00a0" + name[2:]).encode())) <= 32 else name])
     d: Dict[str, Any] = {
         "model": model, "device_id": tag, "device_key": f"{r.randrange(256):02x}", "name": name,
         "ip": ".".join(map(str, ip)), "mac": ":".join(f"{b:02X}" for b in mac),
@@ -267,6 +269,10 @@ def broadcast_desc(r, model: str, i: int, tag: str) -> Dict[str, Any]:
     edge16 = [0, 1, 219, 220, 221, 255, 256, 65535, 2600]
     edge_t = [0, 1, 59, 60, 3599, 3600, 86399, 5400]
     d["power"] = r.choice(edge16) if r.random() < 0.15 else r.randrange(65536)
+    if r.random() < 0.06:
+        d["power"] = r.randrange(0, 60)        # a few watts: where 0.0 / 0.1 / 0.2 A are decided
+    elif r.random() < 0.03:
+        d["power"] = r.randrange(21900, 22100)  # around 99.9 / 100.0 A
     d["remaining"] = r.choice(edge_t) if r.random() < 0.15 else r.randrange(86400)
     d["auto_shutdown"] = r.choice(edge_t) if r.random() < 0.15 else r.randrange(86400)
     d["position"] = i % 101
